@@ -124,7 +124,8 @@ impl C12 {
         // a declared namespace on this element?
         let ns = match t.weighted(&[6, 2, 2]) {
             0 => None,
-            1 => Some((String::new(), t.pick(&URIS).to_string())),
+            // the default namespace; `ns = ""` takes the element out of an inherited one
+            1 => Some((String::new(), if t.chance(1, 4) { String::new() } else { t.pick(&URIS).to_string() })),
             _ => Some((t.pick(&PREFIXES).to_string(), t.pick(&URIS).to_string())),
         };
         let pushed = if let Some((p, _)) = &ns {
@@ -530,6 +531,8 @@ fn compare(exp: &XNode, act: &J, path: &str, scope: &Vec<(String, String)>) -> R
                     Some((_, av)) => return Err(format!("at {}: namespace {} = {:?} read back as {:?}", here, k, v, av)),
                     // the same binding is already in scope: repeating it is optional
                     None if scope.iter().any(|(sk, sv)| sk == k && sv == v) => {}
+                    // xmlns="" where no default namespace is in scope says nothing
+                    None if k == "xmlns" && v.is_empty() && !scope.iter().any(|(sk, sv)| sk == "xmlns" && !sv.is_empty()) => {}
                     None => return Err(format!("at {}: namespace declaration {}={:?} missing; found {:?}", here, k, v, adecl)),
                 }
             }
